@@ -115,6 +115,10 @@ MIN_COUNTERS = {
         "jacobian_checked:composite_with_sub_model_transformers:MOERegressor": 140,
         "jacobian_checked:composite_with_sub_model_transformers:RegressorChain": 200,
         "surrogate_linearize_checked:composite_with_sub_model_transformers": 230,
+        "lifecycle_cases": 110, "models_retrained_on_another_learning_set": 300,
+        "clauses_judged_after_retraining": 6500, "surrogate_built_before_retraining_checked": 1800,
+        "accessor_closed_form_checked": 210, "models_retrained_on_another_learning_set:LinearRegressor": 40,
+        "retrained_equals_fresh_instance_checked": 300,
     }, **_NOJAC_MIN),
     "thorough": dict({
         "jacobian_oracle_evaluations": 25000, "jacobian_dict_form_checked": 19000, "jacobian_batch_form_checked": 19000,
@@ -139,6 +143,10 @@ MIN_COUNTERS = {
         "jacobian_checked:composite_with_sub_model_transformers:MOERegressor": 1300,
         "jacobian_checked:composite_with_sub_model_transformers:RegressorChain": 2600,
         "surrogate_linearize_checked:composite_with_sub_model_transformers": 2600,
+        "lifecycle_cases": 1100, "models_retrained_on_another_learning_set": 3200,
+        "clauses_judged_after_retraining": 66000, "surrogate_built_before_retraining_checked": 18000,
+        "accessor_closed_form_checked": 2000, "models_retrained_on_another_learning_set:LinearRegressor": 400,
+        "retrained_equals_fresh_instance_checked": 3200,
     }, **_NOJAC_MIN),
 }
 SHARD_TIMEOUT = {"quick": 700, "thorough": 1500}
@@ -492,6 +500,10 @@ def gen_model_case(rng):
                 sub_out = sub["tout"]["n_components"]
             if sub_out == 1 and sub["settings"].get("penalty_level") and sub["settings"].get("l2_penalty_ratio") != 1.0:
                 sub["settings"]["l2_penalty_ratio"] = 1.0
+    # model life cycle: the same instance trained on a subset, another subset, all samples, an enriched dataset
+    if rng.random() < 0.2 and not reg.get("square") and "samples" not in case:
+        case["lifecycle"] = True
+        case["via_discipline"] = False
     return case
 
 
@@ -532,7 +544,7 @@ def case_signature(case):
     d = case["data"]
     return ("model", reg_features(case["reg"]), t_kind(case["tin"]), t_kind(case["tout"]), case["by_name"],
             tuple(d["in_sizes"].values()), tuple(d["out_sizes"].values()), bool(d["func"]["constant"]),
-            "samples" in case, "output_names" in case, case.get("via_discipline", False))
+            "samples" in case, "output_names" in case, case.get("via_discipline", False), bool(case.get("lifecycle")))
 
 
 # =========================================================================== model construction
@@ -633,8 +645,8 @@ def gen_sub_transformers(rng, sub, dim_in, dim_out):
         sub["tout"] = gen_transformer(rng, dim_out, positive=False, allow_power=rng.random() < 0.1, allow_lossy=True)
 
 
-def build_model(case, ds):
-    """Build and train the model of a case; returns (model, discipline or None)."""
+def build_model(case, ds, train=True):
+    """Build (and train unless ``train`` is False) the model of a case; returns (model, discipline or None)."""
     from gemseo.mlearning.regression.algos.factory import RegressorFactory
 
     reg, data = case["reg"], case["data"]
@@ -667,7 +679,7 @@ def build_model(case, ds):
         kw["hard"] = reg["hard"]
     simple = name not in ("MOERegressor", "RegressorChain")
     disc = None
-    if case.get("via_discipline") and simple and "samples" not in case:
+    if train and case.get("via_discipline") and simple and "samples" not in case:
         from gemseo.disciplines.surrogate import SurrogateDiscipline
 
         try:
@@ -686,6 +698,8 @@ def build_model(case, ds):
     if name == "RegressorChain":
         for sub in reg["chain"]:
             model.add_algo(sub["name"], **sub_kwargs(sub))
+    if not train:
+        return model, None
     if "samples" in case:
         model.learn(samples=list(case["samples"]))
     else:
@@ -694,9 +708,9 @@ def build_model(case, ds):
 
 
 # =========================================================================== oracles
-def pick_queries(case, z_learn, n_query=5):
+def pick_queries(case, z_learn, n_query=5, salt=0):
     """Query points (normalised coordinates) away from the learning points; returns (points, min distances)."""
-    rng = np.random.default_rng(case["qseed"])
+    rng = np.random.default_rng(case["qseed"] + 7919 * salt)
     n_in = z_learn.shape[1]
     cand = rng.uniform(0.03, 0.97, (60, n_in))
     d = np.sqrt(((cand[:, None, :] - z_learn[None, :, :]) ** 2).sum(-1)).min(1)
@@ -883,7 +897,7 @@ def transf_tag(case):
 
 
 def judge_model(case, rep):
-    """Run one model case through clauses 1, 2 and 4."""
+    """Run one model case through clauses 1, 2 and 4 (once, or after every training of a life-cycle case)."""
     reg, data = case["reg"], case["data"]
     name = reg["name"]
     rep.count("model_cases")
@@ -892,22 +906,201 @@ def judge_model(case, rep):
         ds, x_all, y_all, z_all = make_dataset(data)
     except Exception as e:  # harness trouble
         raise RuntimeError(f"dataset construction failed: {e!r}") from e
-    judged = False
+    if case.get("lifecycle"):
+        judge_lifecycle(case, rep, ds, x_all, y_all, z_all)
+        return
     try:
         with np.errstate(all="ignore"):
             model, disc = build_model(case, ds)
     except Exception as e:
-        # Training is outside the statement (it speaks about trained models); recorded, never a verdict.
-        rep.count("learn_failed")
-        hint = ""
-        if name == "OTGaussianProcessRegressor" and len(data["in_sizes"]) > 1:
-            hint = ":several-input-variables"
-        elif t_has(case["tin"], ("PCA",)) or t_has(case["tout"], ("PCA",)):
-            hint = ":with-PCA-transformer"
-        rep.observe(f"learn-failed:{name}:{type(e).__name__}{hint}",
-                    {"case": case, "error": f"{type(e).__name__}: {str(e)[:300]}"})
+        learn_failed(case, rep, e)
         rep.case(case_signature(case), False)
         return
+    idx = np.array(case["samples"]) if "samples" in case else np.arange(data["n"])
+    judged, _ = judge_trained(case, rep, model, disc, x_all, y_all, z_all, idx)
+    rep.case(case_signature(case), judged)
+
+
+def learn_failed(case, rep, e, phase=""):
+    """Training is outside the statement (it speaks about trained models); recorded, never a verdict."""
+    name, data = case["reg"]["name"], case["data"]
+    rep.count("learn_failed")
+    hint = ""
+    if name == "OTGaussianProcessRegressor" and len(data["in_sizes"]) > 1:
+        hint = ":several-input-variables"
+    elif t_has(case["tin"], ("PCA",)) or t_has(case["tout"], ("PCA",)):
+        hint = ":with-PCA-transformer"
+    rep.observe(f"learn-failed:{name}:{type(e).__name__}{hint}{phase}",
+                {"case": case, "error": f"{type(e).__name__}: {str(e)[:300]}"})
+
+
+def enrich_dataset(case, ds, x_all, y_all, z_all, rs):
+    """Append new samples of the same function to the learning dataset, in place."""
+    data = case["data"]
+    lb, ub = np.array(data["lb"]), np.array(data["ub"])
+    m = max(3, len(x_all) // 4)
+    z_new = rs.uniform(0, 1, (m, len(lb)))
+    x_new, y_new = lb + (ub - lb) * z_new, f_eval(data["func"], z_new)
+    off_in, off_out, o = {}, {}, 0
+    for k, sz in data["in_sizes"].items():
+        off_in[k] = o
+        o += sz
+    o = 0
+    for k, sz in data["out_sizes"].items():
+        off_out[k] = o
+        o += sz
+    n0 = len(ds)
+    for i in range(m):
+        row = []
+        for group, var, comp in ds.columns:
+            row.append(x_new[i, off_in[var] + comp] if group == ds.INPUT_GROUP else y_new[i, off_out[var] + comp])
+        ds.loc[n0 + i] = row
+    return np.vstack([x_all, x_new]), np.vstack([y_all, y_new]), np.vstack([z_all, z_new])
+
+
+JUDGED_COUNTERS = ("jacobian_oracle_evaluations", "interpolation_checked", "surrogate_execute_checked",
+                   "surrogate_linearize_checked", "accessor_closed_form_checked",
+                   "retrained_equals_fresh_instance_checked")
+
+
+def judge_twin(case, rep, model, ds, samples, xs, phase):
+    """A re-trained instance predicts like a fresh instance trained on the same learning set (differential twin).
+
+    A model is a function of its settings and of its *current* learning set; whatever survives from an earlier
+    training (cached coefficients, estimators appended to a list, ...) makes its predictions inconsistent with its own
+    data.  Training must be deterministic for the comparison to mean anything: on a mismatch a second fresh instance
+    is trained and the case is dropped (counted) when the two fresh instances disagree with each other.
+    """
+    name = case["reg"]["name"]
+    wcase = dict(case, phase=phase)
+
+    def fresh():
+        with np.errstate(all="ignore"):
+            m_, _ = build_model(case, ds, train=False)
+            if samples is None:
+                m_.learn()
+            else:
+                m_.learn(samples=list(samples))
+        return m_
+
+    def pred(m_):
+        with np.errstate(all="ignore"):
+            return np.asarray(m_.predict(np.array(xs, dtype=float)))
+
+    def close(a, b):
+        return a.shape == b.shape and bool(np.all(np.abs(a - b) <= 1e-8 * (1 + np.abs(a).max(axis=0))))
+
+    try:
+        twin = fresh()
+        pa = pred(twin)
+    except Exception:
+        rep.count("twin_skipped_fresh_instance_fails")
+        return False
+    if not np.all(np.isfinite(pa)):
+        rep.count("twin_skipped_non_finite")
+        return False
+    rep.count("retrained_equals_fresh_instance_checked")
+    sig = f"C18:{name}:re-trained-instance-differs-from-fresh-instance"
+    kept = False
+    try:
+        # mechanism: one estimator per output appended to ``algo`` at every training, never reset
+        kept = isinstance(model.algo, list) and isinstance(twin.algo, list) and len(model.algo) > len(twin.algo)
+    except Exception:
+        pass
+    if kept:
+        sig = f"C18:{name}:re-trained-instance-keeps-the-estimators-of-the-previous-training"
+    try:
+        pr = pred(model)
+    except Exception as e:
+        rep.violation(sig if kept else f"{sig}:predict-raises:{type(e).__name__}", "retraining", wcase,
+                      observed=f"{type(e).__name__}: {str(e)[:300]}", expected=pa,
+                      msg="predict raises on an instance trained a second time; a fresh instance trained on the same "
+                          "learning set predicts")
+        return True
+    if pr.shape != pa.shape:
+        rep.violation(sig if kept else f"{sig}:prediction-shape", "retraining", wcase, observed=list(pr.shape),
+                      expected=list(pa.shape),
+                      msg="the prediction of an instance trained a second time has another shape than the one of a "
+                          "fresh instance trained on the same learning set")
+        return True
+    if not close(pa, pr):
+        try:
+            pb = pred(fresh())
+        except Exception:
+            pb = None
+        if pb is None or not close(pa, pb):
+            rep.count("twin_skipped_training_not_deterministic")
+            return False
+        rep.violation(sig if kept else f"{sig}:prediction-values", "retraining", wcase, observed=pr, expected=pa,
+                      msg="an instance trained a second time does not predict like a fresh instance trained on the "
+                          "same learning set")
+    return True
+
+
+def judge_lifecycle(case, rep, ds, x_all, y_all, z_all):
+    """One model instance through its life cycle: train on a subset, judge every clause (which reads predictions,
+    Jacobians, coefficient accessors and builds a SurrogateDiscipline, i.e. fills whatever lazy state there is),
+    re-train the same instance on another subset, then on all samples, then once more after the dataset was enriched,
+    judging every clause again after each training - including the disciplines built before the re-training."""
+    name = case["reg"]["name"]
+    rep.count("lifecycle_cases")
+    rep.count(f"lifecycle_cases:{name}")
+    try:
+        with np.errstate(all="ignore"):
+            model, _ = build_model(case, ds, train=False)
+    except Exception as e:
+        learn_failed(case, rep, e, ":construction")
+        rep.case(case_signature(case), False)
+        return
+    n = len(x_all)
+    rs = np.random.default_rng(case["qseed"] + 17)
+    perm = rs.permutation(n)
+    k = min(n, max(int(np.ceil(0.6 * n)), 6))
+    phases = [("subset-1", sorted(int(i) for i in perm[:k])), ("subset-2", sorted(int(i) for i in perm[n - k:])),
+              ("all", None), ("enriched", None)]
+    judged = False
+    discs = []
+    for ip, (pname, samples) in enumerate(phases):
+        if pname == "enriched":
+            try:
+                x_all, y_all, z_all = enrich_dataset(case, ds, x_all, y_all, z_all, rs)
+            except Exception as e:  # harness trouble with the dataset API: stop the life cycle here
+                rep.observe("dataset-could-not-be-enriched", f"{type(e).__name__}: {e}")
+                break
+        try:
+            with np.errstate(all="ignore"):
+                if samples is None:
+                    model.learn()
+                else:
+                    model.learn(samples=list(samples))
+        except Exception as e:
+            learn_failed(case, rep, e, ":re-training" if ip else "")
+            break
+        idx = np.arange(len(x_all)) if samples is None else np.array(samples)
+        before = sum(rep.counters.get(c_, 0) for c_ in JUDGED_COUNTERS)
+        j_, disc = judge_trained(case, rep, model, None, x_all, y_all, z_all, idx, phase=(ip, pname), old_discs=discs)
+        judged |= j_
+        if ip:
+            zq, _ = pick_queries(case, z_all[idx], salt=ip)
+            lb_, ub_ = np.array(case["data"]["lb"]), np.array(case["data"]["ub"])
+            xs = lb_ + (ub_ - lb_) * (zq if len(zq) else np.full((1, len(lb_)), 0.4))
+            judged |= judge_twin(case, rep, model, ds, samples, xs, pname)
+        if disc is not None:
+            discs.append(disc)
+        if ip:
+            rep.count("models_retrained_on_another_learning_set")
+            rep.count(f"models_retrained_on_another_learning_set:{name}")
+            rep.count("clauses_judged_after_retraining", sum(rep.counters.get(c_, 0) for c_ in JUDGED_COUNTERS) - before)
+    rep.case(case_signature(case), judged)
+
+
+def judge_trained(case, rep, model, disc, x_all, y_all, z_all, idx, phase=None, old_discs=()):
+    """Clauses 1, 2, 4 (and the accessor clause) on a model as it is trained now; returns (judged, discipline)."""
+    reg, data = case["reg"], case["data"]
+    name = reg["name"]
+    judged = False
+    retrained = phase is not None and phase[0] > 0
+    wcase = case if phase is None else dict(case, phase=phase[1])
     in_sizes = dict(data["in_sizes"])
     out_names = list(case.get("output_names") or data["out_sizes"])
     out_sizes = {k: data["out_sizes"][k] for k in out_names}
@@ -917,18 +1110,19 @@ def judge_model(case, rep):
         if k in out_sizes:
             cols.extend(range(o, o + s))
         o += s
-    idx = np.array(case["samples"]) if "samples" in case else np.arange(data["n"])
     x_l, y_l, z_l = x_all[idx], y_all[idx][:, cols], z_all[idx]
     n_in, n_out = x_l.shape[1], y_l.shape[1]
     lb, ub = np.array(data["lb"]), np.array(data["ub"])
     h = H_REL * (ub - lb)
     tag, kernel, eps = model_tags(case, model)
+    if retrained:
+        tag += ":same-instance-re-trained"
     ttag = transf_tag(case)
     subs = reg.get("chain", []) + ([reg["sub"]] if "sub" in reg else [])
     sub_tr = any(sub_has_transformers(s_) for s_ in subs)
-    if subs:
+    if subs and not retrained:
         rep.count("composite_cases")
-    if sub_tr:
+    if sub_tr and not retrained:
         rep.count("composite_cases_with_sub_model_transformers")
         rep.count(f"composite_cases_with_sub_model_transformers:{name}")
     if name == "RegressorChain" and sub_tr:
@@ -945,10 +1139,10 @@ def judge_model(case, rep):
             return np.asarray(model.predict(np.array(p, dtype=float)))
 
     # ---------------------------------------------------------------- clause 2: interpolation
-    judged |= judge_interpolation(case, rep, model, x_l, y_l, tag, ttag)
+    judged |= judge_interpolation(wcase, rep, model, x_l, y_l, tag, ttag)
 
     # ---------------------------------------------------------------- clause 1: Jacobian
-    zq, n_ok = pick_queries(case, z_l)
+    zq, n_ok = pick_queries(case, z_l, salt=0 if phase is None else phase[0])
     if len(zq) == 0:
         rep.count("no_query_point_far_enough_from_nodes")
     xq = lb + (ub - lb) * zq
@@ -968,7 +1162,7 @@ def judge_model(case, rep):
             break
         except Exception as e:
             rep.violation(sig_1d or f"C18:{name}:predict_jacobian:exception:{type(e).__name__}:{tag}:{ttag}", "jacobian",
-                          dict(case, query=x0.tolist()),
+                          dict(wcase, query=x0.tolist()),
                           observed=f"{type(e).__name__}: {str(e)[:300]}", expected="a Jacobian of shape (n_out, n_in)",
                           msg="predict_jacobian raised on a trained model and a valid input")
             jac_available = False
@@ -977,7 +1171,7 @@ def judge_model(case, rep):
         j_arr = np.asarray(j_arr)
         if j_arr.shape != (n_out, n_in):
             rep.violation(sig_1d or f"C18:{name}:predict_jacobian:shape:1d-input:{tag}:{ttag}", "jacobian",
-                          dict(case, query=x0.tolist()), observed=list(j_arr.shape), expected=[n_out, n_in])
+                          dict(wcase, query=x0.tolist()), observed=list(j_arr.shape), expected=[n_out, n_in])
             jac_available = False
             jac_broken = True
             break
@@ -1026,7 +1220,7 @@ def judge_model(case, rep):
                     sig = f"C18:{name}:jacobian-vs-prediction:kernel={kernel}:off-by-epsilon^-{p}"
             elif kernel is None:
                 sig += ":" + ttag
-            rep.violation(sig, "jacobian", dict(case, query=x0.tolist()),
+            rep.violation(sig, "jacobian", dict(wcase, query=x0.tolist()),
                           observed={"predict_jacobian": j_arr, "epsilon": eps},
                           expected={"richardson_fd_of_predict": r1, "tolerance": tol},
                           msg="predict_jacobian differs from the derivative of the model's own predict")
@@ -1040,10 +1234,10 @@ def judge_model(case, rep):
             rep.count("jacobian_dict_form_checked")
             if np.any(np.abs(blocks - r1) > tol):
                 rep.violation(f"C18:{name}:jacobian-vs-prediction:dict-form:{tag}:{ttag}", "jacobian",
-                              dict(case, query=x0.tolist()), observed=blocks, expected=r1)
+                              dict(wcase, query=x0.tolist()), observed=blocks, expected=r1)
         except Exception as e:
             rep.violation(f"C18:{name}:predict_jacobian:dict-form:exception:{type(e).__name__}:{tag}:{ttag}", "jacobian",
-                          dict(case, query=x0.tolist()), observed=f"{type(e).__name__}: {str(e)[:300]}",
+                          dict(wcase, query=x0.tolist()), observed=f"{type(e).__name__}: {str(e)[:300]}",
                           expected="dict of dict of blocks")
         # batch call form (computed once)
         if jac_batch is None:
@@ -1053,19 +1247,19 @@ def judge_model(case, rep):
             except Exception as e:
                 jac_batch = False
                 rep.violation(sig_1d or f"C18:{name}:predict_jacobian:batch-form:exception:{type(e).__name__}:{tag}:{ttag}",
-                              "jacobian", case, observed=f"{type(e).__name__}: {str(e)[:300]}",
+                              "jacobian", wcase, observed=f"{type(e).__name__}: {str(e)[:300]}",
                               expected="(n_samples, n_out, n_in)",
                               msg="predict_jacobian raised for a 2-D array of samples (it works for one sample)")
             else:
                 if jac_batch.shape != (len(xq), n_out, n_in):
-                    rep.violation(sig_1d or f"C18:{name}:predict_jacobian:shape:2d-input:{tag}:{ttag}", "jacobian", case,
+                    rep.violation(sig_1d or f"C18:{name}:predict_jacobian:shape:2d-input:{tag}:{ttag}", "jacobian", wcase,
                                   observed=list(jac_batch.shape), expected=[len(xq), n_out, n_in])
                     jac_batch = False
         if jac_batch is not None and jac_batch is not False:
             rep.count("jacobian_batch_form_checked")
             if np.any(np.abs(jac_batch[iq] - r1) > tol):
                 rep.violation(f"C18:{name}:jacobian-vs-prediction:batch-form:{tag}:{ttag}", "jacobian",
-                              dict(case, query=x0.tolist()), observed=jac_batch[iq], expected=r1)
+                              dict(wcase, query=x0.tolist()), observed=jac_batch[iq], expected=r1)
         # numeric trap (observation only)
         if iq == 0:
             try:
@@ -1077,9 +1271,63 @@ def judge_model(case, rep):
                 pass
 
     # ---------------------------------------------------------------- clause 4: surrogate discipline
-    judged |= judge_surrogate(case, rep, model, disc, xq if len(xq) else lb + (ub - lb) * np.full((1, n_in), 0.4),
-                              in_sizes, out_names, out_sizes, jac_available, tag, ttag, jac_broken)
-    rep.case(case_signature(case), judged)
+    xs = xq if len(xq) else lb + (ub - lb) * np.full((1, n_in), 0.4)
+    # ---------------------------------------------------------------- accessors (models exposing coefficients)
+    judged |= judge_accessors(wcase, rep, model, xs, tag, ttag)
+    # ---------------------------------------------------------------- clause 4: surrogate discipline
+    done, disc = judge_surrogate(wcase, rep, model, disc, xs, in_sizes, out_names, out_sizes, jac_available, tag, ttag,
+                                 jac_broken)
+    judged |= done
+    for old in old_discs:
+        # a discipline built before the re-training wraps the same instance: it must follow the model
+        done, _ = judge_surrogate(wcase, rep, model, old, xs, in_sizes, out_names, out_sizes, jac_available, tag, ttag,
+                                  jac_broken, when=":discipline-built-before-re-training")
+        judged |= done
+    return judged, disc
+
+
+def judge_accessors(case, rep, model, xs, tag, ttag):
+    """``predict`` equals the closed form rebuilt from the public coefficient / intercept accessors."""
+    name = case["reg"]["name"]
+    if name not in ("LinearRegressor", "PolynomialRegressor") or case["by_name"]:
+        return False
+    try:
+        with np.errstate(all="ignore"):
+            coef = np.asarray(model.get_coefficients(as_dict=False), dtype=float)
+            inter = np.asarray(model.get_intercept(as_dict=False), dtype=float)
+            coef2 = np.asarray(model.coefficients, dtype=float)
+            xt = np.asarray(xs, dtype=float)
+            if "inputs" in model.transformer:
+                xt = np.asarray(model.transformer["inputs"].transform(xt.copy()))
+            feats = xt
+            if name == "PolynomialRegressor":
+                from sklearn.preprocessing import PolynomialFeatures
+
+                feats = PolynomialFeatures(degree=case["reg"]["settings"].get("degree", 1),
+                                           include_bias=False).fit_transform(xt)
+            if coef.ndim != 2 or coef.shape[1] != feats.shape[1] or coef.shape != coef2.shape:
+                rep.violation(f"C18:{name}:coefficients-shape:{tag}", "accessors", case,
+                              observed=[list(coef.shape), list(coef2.shape)], expected=["n_outputs", feats.shape[1]])
+                return True
+            raw = feats @ coef.T + inter.reshape(1, -1)
+            expected = raw
+            if "outputs" in model.transformer:
+                expected = np.asarray(model.transformer["outputs"].inverse_transform(raw.copy()))
+            pred = np.asarray(model.predict(np.asarray(xs, dtype=float).copy()))
+    except Exception as e:
+        rep.observe(f"accessor-closed-form-not-evaluable:{name}:{type(e).__name__}", str(e)[:200])
+        return False
+    if not (np.all(np.isfinite(pred)) and np.all(np.isfinite(expected))) or pred.shape != expected.shape:
+        rep.count("accessor_closed_form_skipped_non_finite")
+        return False
+    rep.count("accessor_closed_form_checked")
+    scale = 1 + np.abs(pred).max(axis=0) + np.abs(raw).max(axis=0) if raw.shape == pred.shape else 1 + np.abs(pred).max()
+    if not np.array_equal(coef, coef2) or np.any(np.abs(pred - expected) > 1e-8 * scale):
+        rep.violation(f"C18:{name}:prediction-differs-from-closed-form-of-coefficients-and-intercept:{tag}", "accessors",
+                      case, observed={"predict": pred, "coefficients": coef, "intercept": inter},
+                      expected={"inverse_transform(features @ coefficients.T + intercept)": expected},
+                      msg="coefficients / intercept accessors do not describe the model that predict evaluates")
+    return True
 
 
 def _nie_reason(case, e):
@@ -1246,7 +1494,7 @@ def chain_mechanism(case):
 
 
 def judge_surrogate(case, rep, model, disc, xq, in_sizes, out_names, out_sizes, jac_available, tag, ttag,
-                    jac_broken=False):
+                    jac_broken=False, when=""):
     from gemseo.disciplines.surrogate import SurrogateDiscipline
 
     name = case["reg"]["name"]
@@ -1258,13 +1506,13 @@ def judge_surrogate(case, rep, model, disc, xq, in_sizes, out_names, out_sizes, 
         if jac_broken:
             # the constructor calls predict_jacobian, which already failed above for this model: same root cause
             rep.count("surrogate_skipped_model_jacobian_raises")
-            return False
+            return False, None
         rep.violation(f"C18:SurrogateDiscipline:init:exception:{type(e).__name__}:{name}:{ttag}", "surrogate", case,
                       observed=f"{type(e).__name__}: {str(e)[:300]}", expected="a discipline wrapping the trained model")
-        return False
+        return False, None
     if disc.regression_model is not model:
         rep.violation("C18:SurrogateDiscipline:wraps-another-model", "surrogate", case)
-        return False
+        return False, None
     expected_mode = "auto" if jac_available else "finite_differences"
     if str(disc.linearization_mode) != expected_mode and not jac_broken:
         rep.observe(f"surrogate-linearization-mode:{disc.linearization_mode}-while-jacobian-available={jac_available}",
@@ -1284,13 +1532,15 @@ def judge_surrogate(case, rep, model, disc, xq, in_sizes, out_names, out_sizes, 
                 rep.violation(f"C18:SurrogateDiscipline:execute:exception:{type(e).__name__}:{name}:{ttag}", "surrogate",
                               dict(case, query=x0.tolist()), observed=f"{type(e).__name__}: {str(e)[:300]}",
                               expected="the model's prediction")
-                return done
+                return done, disc
         rep.count("surrogate_execute_checked")
+        if when:
+            rep.count("surrogate_built_before_retraining_checked")
         done = True
         for k in out_names:
             a, b = np.asarray(out[k]), np.asarray(ref[k]).flatten()
             if a.shape != b.shape or not np.array_equal(a, b, equal_nan=True):
-                rep.violation(f"C18:SurrogateDiscipline:execute-differs-from-predict:{name}:{ttag}", "surrogate",
+                rep.violation(f"C18:SurrogateDiscipline:execute-differs-from-predict:{name}:{ttag}{when}", "surrogate",
                               dict(case, query=x0.tolist()), observed={k: a}, expected={k: b},
                               msg="SurrogateDiscipline.execute is not bitwise the model's prediction")
                 break
@@ -1310,7 +1560,7 @@ def judge_surrogate(case, rep, model, disc, xq, in_sizes, out_names, out_sizes, 
                 rep.violation(f"C18:SurrogateDiscipline:linearize:exception:{type(e).__name__}:{name}:{ttag}", "surrogate",
                               dict(case, query=x0.tolist()), observed=f"{type(e).__name__}: {str(e)[:300]}",
                               expected="the model's Jacobian")
-                return done
+                return done, disc
         rep.count("surrogate_linearize_checked")
         if any(sub_has_transformers(s_) for s_ in case["reg"].get("chain", []) + ([case["reg"]["sub"]] if "sub" in case["reg"] else [])):
             rep.count("surrogate_linearize_checked:composite_with_sub_model_transformers")
@@ -1320,7 +1570,7 @@ def judge_surrogate(case, rep, model, disc, xq, in_sizes, out_names, out_sizes, 
                 a = np.asarray(jac[ko][ki])
                 b = np.asarray(jref[ko][ki])
                 if a.shape != (out_sizes[ko], in_sizes[ki]) or not np.array_equal(a, b.reshape(a.shape) if a.size == b.size else b, equal_nan=True):
-                    rep.violation(f"C18:SurrogateDiscipline:linearize-differs-from-predict_jacobian:{name}:{ttag}",
+                    rep.violation(f"C18:SurrogateDiscipline:linearize-differs-from-predict_jacobian:{name}:{ttag}{when}",
                                   "surrogate", dict(case, query=x0.tolist()), observed={f"{ko}/{ki}": a},
                                   expected={f"{ko}/{ki}": b},
                                   msg="SurrogateDiscipline.linearize is not bitwise the model's Jacobian")
@@ -1328,7 +1578,7 @@ def judge_surrogate(case, rep, model, disc, xq, in_sizes, out_names, out_sizes, 
                     break
             if stop:
                 break
-    return done
+    return done, disc
 
 
 # =========================================================================== transformer cases (clause 3)
@@ -1671,6 +1921,29 @@ def directed_cases():
                   [dict(pol, tin="default", tout="default"), dict(rbf, tin=None, tout=mm)]):
         for tr in ((None, None), (mm, std)):
             model({"name": "RegressorChain", "settings": {}, "chain": chain}, *tr)
+    # life cycle of one instance (subset, other subset, all samples, enriched dataset), every regressor family
+    for reg_ in ({"name": "LinearRegressor", "settings": {}},
+                 {"name": "LinearRegressor", "settings": {"fit_intercept": False}},
+                 {"name": "LinearRegressor", "settings": {"penalty_level": 0.01, "l2_penalty_ratio": 0.0}},
+                 {"name": "LinearRegressor", "settings": {"penalty_level": 0.01, "l2_penalty_ratio": 1.0}},
+                 {"name": "PolynomialRegressor", "settings": {"degree": 2}},
+                 {"name": "PolynomialRegressor", "settings": {"degree": 3, "penalty_level": 0.001, "l2_penalty_ratio": 0.5}},
+                 {"name": "RBFRegressor", "settings": {}}, {"name": "RBFRegressor", "settings": {"function": "gaussian", "epsilon": 0.5}},
+                 {"name": "TPSRegressor", "settings": {"epsilon": 1.0}},
+                 {"name": "PCERegressor", "settings": {"degree": 2}, "dist": "uniform"},
+                 {"name": "MOERegressor", "settings": {}, "n_clusters": 2, "n_neighbors": 3,
+                  "sub": {"name": "LinearRegressor", "settings": {}, "tin": mm, "tout": mm}},
+                 {"name": "RegressorChain", "settings": {}, "chain": [dict(lin), dict(rbf)]},
+                 {"name": "RegressorChain", "settings": {}, "chain": [dict(pol), dict(lin)]},
+                 {"name": "OTGaussianProcessRegressor", "settings": {}},
+                 {"name": "GaussianProcessRegressor", "settings": {}}, {"name": "RandomForestRegressor", "settings": {}},
+                 {"name": "SVMRegressor", "settings": {}}, {"name": "GradientBoostingRegressor", "settings": {}},
+                 {"name": "MLPRegressor", "settings": {}}):
+        for tr in ((None, None), ("default", "default"), (pca, sc)):
+            if reg_["name"] == "PCERegressor" and tr[0] not in (None, "default"):
+                tr = (None, sc)
+            model(dict(reg_), *tr, data=_fixed_data(n=30 if reg_["name"] in ("MOERegressor", "PCERegressor") else 16),
+                  lifecycle=True)
     # Gaussian processes, one and two input variables
     for split in (False, True):
         for n_out in (1, 2):
@@ -1772,4 +2045,5 @@ def replay(case, rep):
         pass
     case = dict(case)
     case.pop("query", None)
+    case.pop("phase", None)
     run_case(case, rep)
